@@ -7,7 +7,9 @@ small intervals), with both orders when an arrival coincides with a tick.
 import itertools
 
 from mc import refs
-from mc.vloop import CLOCK
+import asyncio
+
+from mc.vloop import CLOCK, LiveLock
 from mc.world import World1, num_in
 
 POOL = [("SRV", "CLI"), ("ACC", "INI"), ("S1", "T1"), ("EXCH", "FIRM")]
@@ -30,6 +32,22 @@ def simulate(case):
             if r0[0] != "exc":
                 return {"harness": "send_test_req without a connection was not refused"}
         w.connect()
+        if case.get("logon_off"):
+            # the peer's Logon arrives between two watchdog ticks (quarter-second offsets)
+            w.advance(case["logon_off"] * Q)
+        hold = case.get("hold")
+        if hold:
+            # the application's on_state_change callback (first session state after the Logon) takes hold*Q seconds:
+            #   the reader is suspended inside Logon processing while the watchdog keeps ticking
+            held = []
+
+            async def gate(conn, name):
+                if name == "on_state_change" and not held and conn.states and conn.states[-1] in ("ACTIVE", "RECV_SEQNUM_TOO_HIGH"):
+                    held.append(1)
+                    await asyncio.sleep(hold * Q)
+
+            c.gates = gate
+        t_logon = CLOCK.now
         if case.get("logon_gap"):
             w.logon(hb=hb, seq=3)  # the peer's Logon is numbered above the expected number, then the peer goes silent
             w.peer_seq = 4
@@ -44,7 +62,8 @@ def simulate(case):
         base = CLOCK.now + case["phase"] * Q
         w.loop.advance_to(base)
         t0k = 0  # last inbound frame (the Logon) happened before base; count silence from base conservatively
-        tl = {"tr": [], "hb_replies": [], "disc": None, "logout": [], "inbound_tr": [], "arrivals": [], "other": []}
+        wf = case.get("wfault")  # (k, exception name): from step k on every drain() of the writer fails, the reader sees nothing
+        tl = {"logon_k": (t_logon - base) / Q, "tr": [], "hb_replies": [], "disc": None, "logout": [], "inbound_tr": [], "arrivals": [], "other": []}
         pending = []  # (due_k, id, mode)
         answered = set()
         arrivals = case["arrivals"]
@@ -127,8 +146,14 @@ def simulate(case):
                         w.peer("0", None)
                     tl["arrivals"].append(k)
 
-        for k in range(0, case["horizon"] + 1):
-            t = base + k * Q
+        def break_writer(wr, exc_cls):
+            async def drain():
+                # the frame went into the send buffer, flushing it fails (half-dead connection)
+                await asyncio.sleep(0)
+                raise exc_cls("write side of the connection failed")
+            wr.drain = drain
+
+        def _steps(k, t):
             if case["order"] == "timers":
                 w.loop.advance_to(t, inclusive=True)
                 scan(k)
@@ -140,6 +165,16 @@ def simulate(case):
                 peer_actions(k)
                 scan(k)
                 w.loop.advance_to(t, inclusive=True)
+                scan(k)
+
+        for k in range(0, case["horizon"] + 1):
+            t = base + k * Q
+            if wf and k == wf[0] and w.writer is not None:
+                break_writer(w.writer, {"reset": ConnectionResetError, "pipe": BrokenPipeError, "timeout": TimeoutError}[wf[1]])
+            try:
+                _steps(k, t)
+            except LiveLock:
+                w.livelock = True
                 scan(k)
             if w.livelock:
                 tl["livelock"] = k
@@ -187,10 +222,18 @@ def judge(case, tl):
 
     if "harness" in tl:
         return out
-    if "livelock" in tl:
-        V("livelock", f"hb{hb}", "the timer task goes quiescent between ticks")
-        return out
     hbclass = "hb1" if hb == 1 else ("hb2" if hb == 2 else "hb_ge3")
+    if case.get("wfault"):
+        hbclass += ":writer_failing"
+    if case.get("hold"):
+        hbclass += ":slow_state_callback"
+    if "livelock" in tl:
+        if not ans and len(tl["tr"]) >= 2:
+            # the spinning timer task kept writing TestRequests that nobody answered
+            V("two_testrequests_outstanding", hbclass, "at most one TestRequest is outstanding at a time", at=tl["tr"][1][0], written=len(tl["tr"]))
+        else:
+            V("livelock", f"hb{hb}", "the timer task goes quiescent between ticks")
+        return out
     if case.get("pre_tr"):
         hbclass += ":after_refused_send_test_req"
     if case.get("logon_gap"):
@@ -222,6 +265,14 @@ def judge(case, tl):
             V("two_testrequests_outstanding", hbclass, "at most one TestRequest is outstanding at a time", at=k, open=open_ids)
             break
         open_ids.append((rid, k))
+    # 2b. a TestRequest is the reaction to about one interval of silence: none while the peer was heard less than
+    #     HeartBtInt - 2 s ago (same slack as on the upper side; vacuous for HeartBtInt <= 2)
+    heard = [tl.get("logon_k", 0)] + sorted(tl["arrivals"])
+    for k, rid in tl["tr"]:
+        last = max(a for a in heard if a < k or a == heard[0])
+        if (k - last) * Q < hb - 2:
+            V("testrequest_without_silence", hbclass, "when nothing has been received for about one heartbeat interval the connection sends a TestRequest", at=k, last_heard=last)
+            break
     # 3. dead peer detection: any silent window
     marks = [0] + [a for a in arr if a <= end]
     for i, L in enumerate(marks):
@@ -345,6 +396,24 @@ def scripted_cases(quick):
                         cases.append(mk(arrivals={2: ["rr_beyond"]}))
                         # the peer's Logon reveals a gap, then the peer is dead: no session state may hide it from the watchdog
                         cases.append(mk(logon_gap=True))
+                    if order == "timers" and (not quick or role == "acceptor" or hb == 30):
+                        # the application's state callback is slow (0.25 .. 2.5 s) while the watchdog ticks; the peer's Logon
+                        #   lands at every quarter-second offset from the tick grid; peer dead, or answering when the
+                        #   callback is over well before the first TestRequest is due
+                        for off in ((phase,) if quick else (0, 1, 2, 3)):
+                            for hold in ((5, 10) if quick else (1, 4, 5, 8, 10, 14)):
+                                cases.append(mk(hold=hold, logon_off=off))
+                                if hold <= hq - 8:
+                                    cases.append(mk(hold=hold, logon_off=off, answer=("right", 0)))
+                                if phase == 0:
+                                    cases.append(mk(hold=hold, logon_off=off, logon_gap=True))
+                        # half-dead connection: from some step on flushing the writer fails (each OSError family member),
+                        #   nothing is read any more: onset before / at / after the first TestRequest
+                        for exc in ("reset", "pipe", "timeout"):
+                            if quick and phase not in (0, 2) and exc != "reset":
+                                continue
+                            for at in sorted({0, max(0, hq - 4), hq + 2} if quick else {0, max(0, hq - 8), max(0, hq - 4), hq, hq + 2, 2 * hq}):
+                                cases.append(mk(wfault=(at, exc)))
                     # inbound test requests
                     cases.append(mk(arrivals={2: ["tr"], hq: ["tr"], hq + 1: ["tr", "tr"]}, answer=("right", 0)))
     return cases
@@ -373,7 +442,8 @@ def run(ctx):
     cs = scripted_cases(ctx.quick) + exhaustive_cases(ctx.quick)
     ctx.rule = ("real timer + reader tasks in virtual time: HeartBtInt x tick phase (quarter seconds) x peer script (silent, "
                 "answering with delay, wrong / missing TestReqID, periodic traffic below/at/above the interval, bursts, inbound "
-                "TestRequests) x both orders when an arrival coincides with a tick; plus ALL arrival schedules on a half-second "
+                "TestRequests) x both orders when an arrival coincides with a tick; slow on_state_change callback after the Logon "
+                "(hold x Logon offset from the tick grid); writer failing with each OSError kind from step k on while nothing is read; plus ALL arrival schedules on a half-second "
                 "grid over 4 intervals for HeartBtInt 1 and 2; non-trivial = run in which the watchdog sent a TestRequest or disconnected")
     ctx.bounds = {"cases": len(cs), "grid_s": Q}
     res = ctx.pmap(_work, cs, chunk=16)
@@ -387,7 +457,7 @@ def run(ctx):
     ctx.outcomes.add("ok")
     for c in cs[:: max(1, len(cs) // 4)][:4]:
         ctx.sample({k: (v if k != "arrivals" else sorted(v)[:10]) for k, v in c.items()})
-    ctx.assumptions += ["'about' = two seconds of slack on the TestRequest threshold and three on the disconnect threshold; no lower bounds demanded",
+    ctx.assumptions += ["'about' = two seconds of slack on the TestRequest threshold (both sides: none before HeartBtInt-2 s after the last inbound frame) and three on the disconnect threshold; no lower bound on the disconnect",
                         "peers that send traffic slower than HeartBtInt-1 and ignore TestRequests are unconstrained"]
 
 
@@ -398,4 +468,6 @@ def replay(ctx, rep):
     case["arrivals"] = {int(k): v for k, v in case["arrivals"].items()}
     if case.get("answer"):
         case["answer"] = tuple(case["answer"])
+    if case.get("wfault"):
+        case["wfault"] = tuple(case["wfault"])
     return judge(case, simulate(case))
